@@ -140,6 +140,7 @@ SHAPES = [
     lambda a, b: TextBlock([a, b]),
     lambda a, b: [None, [None, [a]], -1, [b, []]],
     lambda a, b: [a, TextBlock(), b],
+    lambda a, b: [1.0, True, 1, a, 0.0, False, 0, -0.0, b, 2, 2.0],       # equal numbers, different text forms
     lambda a, b: [TextBlock(None), [a, TextBlock([])], {'k': TextBlock('')}, b],
 ]
 
